@@ -248,6 +248,9 @@ def fan_cfgs(tier):
     C["fanin-fa-fleet"] = dict(n_src=2, n_out=1, n_items=2, w=1, in_kind="fleet", in_cap=2, sym=("iat",), same_iat=True, out_delay=0,
                                conv_kw=dict(fdelay=1, transit=0.5), until=12)
     C["fanin-fa"] = dict(n_src=2, n_out=1, n_items=2, w=1)
+    C["line-srcfa"] = dict(n_src=1, n_out=1, n_items=3, w=1, src_out_sel="FIRST_AVAILABLE")
+    C["fanin-fa-srcfa"] = dict(n_src=2, n_out=1, n_items=2, w=1, src_out_sel="FIRST_AVAILABLE", in_delay="sym-last", out_delay=0, sym=("iat",))
+    C["fanin-fa-indelay"] = dict(n_src=2, n_out=1, n_items=2, w=1, in_delay="sym-last", out_delay=0, sym=("iat",))
     C["fanin-fa-w2-tie"] = dict(n_src=2, n_out=1, n_items=2, w=2, same_iat=True, per_item_pd=True)
     C["fanout-fa"] = dict(n_src=1, n_out=2, n_items=n3, w=1, out_cap=1)
     C["fanout-w2-tie"] = dict(n_src=2, n_out=2, n_items=1 if q else 2, w=2, out_cap=1, same_iat=True)
@@ -339,7 +342,7 @@ PROPS["C10"] = {
 PROPS["C15"] = {
     "explanation": M2_EXPL + "the edge on which every item is pulled/pushed is compared with the policy's answers (ROUND_ROBIN k mod n, constant index, user callable / generator whose answers "
                    "the solver chooses), FIRST_AVAILABLE must not cancel a granted request on a lower-index edge in the round in which it commits, and the recorded selection history must equal the routing.",
-    "jobs": lambda tier: fan_jobs("C15", tier, names=["fanin-fa", "fanin-fa-w2-tie", "fanout-fa", "fanout-w2-tie", "nb-machine-fa", "nb-machine-rr", "rr-in", "rr-out", "rr-both", "idx-out", "callable-in", "generator-out", "fanout3-w3"]) + [
+    "jobs": lambda tier: fan_jobs("C15", tier, names=["fanin-fa", "fanin-fa-indelay", "fanin-fa-w2-tie", "fanout-fa", "fanout-w2-tie", "nb-machine-fa", "nb-machine-rr", "rr-in", "rr-out", "rr-both", "idx-out", "callable-in", "generator-out", "fanout3-w3"]) + [
         {"name": "M0/selectors", "spec": ("vfy.m0", "selector_scenario", dict(nmax=4 if tier == "quick" else 6)), "budget_s": 20 if tier == "quick" else 60, "bounds": "RoundRobin_edge_selector and _get_*_edge_index of all node classes with out-of-range answers"}],
     "required_witnesses": ["C15:routing-checked", "C15:history-checked", "C15:range-checked"],
     "nontrivial_witnesses": ["complete"],
@@ -489,6 +492,10 @@ def pk_cfgs(tier):
     C["r11-lifo-mid"] = dict(recipe=(1, 1), n_pallets=3, mid_cap=3, mid_mode="LIFO", sym=("sd",), split_sd_hi=6)
     C["r11-split-in-idx"] = dict(recipe=(1, 1), n_pallets=3, split_in_sel=0, sym=("ip", "sd"), split_sd_hi=5, mid_cap=2)
     C["r13-nonblocking-split"] = dict(recipe=(1, 3), n_pallets=2, blocking=True, split_blocking=False, out_delay="sym", sym=("ii", "sd"), item_cap=3)
+    C["r111-itemdelay"] = dict(recipe=(1, 1, 1), n_pallets=1, sym=("ii",), item_delay="sym-last", comb_only=True)
+    C["r111-itemdelay-srcfa"] = dict(recipe=(1, 1, 1), n_pallets=2, sym=("ii",), item_delay="sym-last", comb_only=True, src_sel="FIRST_AVAILABLE")
+    C["r12-srcfa"] = dict(recipe=(1, 2), n_pallets=2, src_sel="FIRST_AVAILABLE")
+    C["r12-lifo-items"] = dict(recipe=(1, 2), n_pallets=2, sym=("ii", "pd"), item_mode="LIFO", item_cap=3, comb_only=True)
     C["r12-comb-only"] = dict(recipe=(1, 2), n_pallets=2, comb_only=True, out_delay="sym")
     if not q:
         C["r122"] = dict(recipe=(1, 2, 2), n_pallets=2, sym=("ii", "pd"))
@@ -588,7 +595,7 @@ def _jobs_c20(tier):
         kw["props"] = ("C20",)
         periodic = any(cfg.get(k) in ("fleet", "sconv") for k in ("e1", "e2"))
         jobs.append({"name": "M2/combo/" + name, "spec": ("vfy.m2s", "combo", kw), "budget_s": (6 if periodic else 10) if q else 30, "bounds": str(cfg), "validate_every": 25})
-    for name in ["r11", "r12-nonblocking", "r11-rr2"]:
+    for name in ["r11", "r12-nonblocking", "r11-rr2", "r12-lifo-items", "r111-itemdelay"]:
         kw = dict(pk_cfgs(tier)[name])
         kw["props"] = ("C20",)
         jobs.append({"name": "M2/pk/" + name, "spec": ("vfy.m2p", "pk", kw), "budget_s": 10 if q else 60, "bounds": str(kw)})
